@@ -1,6 +1,47 @@
 (* C06 — the encoder rejects constraint-violating values and never emits a wrong encoding.
-   Statements pinned here; L1 proofs in Per/Proofs.v (via Props/C10.v), L2 lemmas in Uper/RejectProofs.v. *)
+   Statements pinned here; L1 proofs in Per/Proofs.v (via Props/C10.v), top-level L2 lemmas in
+   Uper/RejectProofs.v, every nesting depth in Uper/RejectNestedProofs.v (on top of Uper/Proofs.v).
+
+   What is proved, sentence by sentence of the property:
+   (1) "a value outside a non-extensible constraint makes UPER encoding fail with an error":
+       - L1, each primitive writer, with the error named (C06_*_reject, first group);
+       - L2 at top level, with the error named, no hypothesis on the descriptor (second group);
+       - L2 at EVERY nesting depth: [C06_reject_nested].  [violates t v] = some position of [v] that
+         the writer encodes (a present OPTIONAL, a DEFAULT component that differs from its default,
+         every list element, the selected CHOICE alternative; root components and extension
+         additions alike) breaks a non-extensible constraint: INTEGER outside lo..hi, SIZE of a
+         string / OCTET STRING / BIT STRING / SEQUENCE OF outside lo..hi, a character outside a
+         restricted alphabet (whatever the extensibility of the size), CHOICE / ENUMERATED index
+         beyond the root.  Then [write_ty] from a writer without enclosing scope answers [Err e]:
+         not Ok, and not a panic.  [C06_reject_nested_in_scope]: inside ANY enclosing scope
+         (presence bit field, extension additions, open type) the result is never Ok, and it is
+         [Err e] as soon as the bit-field entry of that enclosing scope does not panic.
+         NOT proved: which error kind [e] is.  It is the error of the first failing position in
+         encoding order, which may be an EARLIER sibling failing for another reason (a second
+         violation, an F10-1 size refusal, ExtensionFieldsInconsistent); the named error is proved
+         at top level (second group) and shown on the example.
+         No [Known_*] class is excluded: [C06_writer_never_panics] shows that the type-level writer
+         cannot panic on any value of the generated Rust type ([wf_val]), in either profile, so an
+         earlier sibling can only succeed or fail with an error.
+         Hypotheses: [wf_ty] (descriptor constants as derived by the compiler), [wf_val] (the value
+         is a value of the Rust type; NOT that it satisfies the constraints), [kinds_ok]: the Rust
+         type u64 is used only for INTEGER types whose lower bound is not negative (a u64 of 2^63
+         or more is cast to a negative i64 by the writer; the compiler never pairs u64 with a
+         negative bound, [wf_ty] does not record it).  Under [wf_ty] /\ [wf_val] the CHOICE /
+         ENUMERATED index clause of [violates] cannot fire (a Rust enum has no such value); those
+         two cases are covered without [wf_val] by C06_enum_reject / C06_choice_reject.
+   (2) "it never succeeds with bits that decode to a different value": [C06_never_wrong_encoding]
+       (= the round-trip theorem C01 read for values that need not satisfy the constraints: for
+       every value of the Rust type outside [Known_C01], IF the writer succeeds THEN the reader
+       returns exactly that value and stops at the end of the produced bits, at every nesting
+       depth) and its contrapositive form [C06_no_other_value].
+   (3) "for extensible constraints an out-of-root value is encoded in the extension form and still
+       round-trips": [C06_extensible_int_out_of_root_roundtrips],
+       [C06_extensible_octets_out_of_root_roundtrips] (the write SUCCEEDS, the first bit is the
+       extension bit 1, the reader returns the value); for the other extensible sizes the round
+       trip of an accepted value is (2). *)
 From A1 Require Import Per.Prim Per.X691 Per.Proofs Uper.Reader Uper.RejectProofs.
+From A1 Require Import Uper.Spec Uper.Proofs Uper.RejectNestedProofs.
 From A1 Require Props.C10.
 Local Open Scope N_scope.
 
@@ -74,11 +115,104 @@ Theorem C06_list_size_reject : forall m e lo hi vs w,
   write_ty m (TListOf e lo hi false) (VList vs) w = Err E_SIZE_RANGE.
 Proof. exact list_size_reject. Qed.
 
+(** L2 at every nesting depth *)
+(* the type-level writer never panics on a value of the generated Rust type *)
+Theorem C06_writer_never_panics : forall m t, wf_ty t ->
+  forall v w, wf_val t v -> wst_wf w -> w_scope w = None -> is_panic (write_ty m t v w) = false.
+Proof. exact write_ty_np. Qed.
+
+(* a violating value has no reference encoding *)
+Theorem C06_violating_value_has_no_encoding : forall m t, kinds_ok t ->
+  forall v, wf_val t v -> violates t v = true -> is_ok (enc m t v) = false.
+Proof. exact violates_enc_fails. Qed.
+
+Theorem C06_reject_nested : forall m t v w,
+  wf_ty t -> kinds_ok t -> wf_val t v -> wst_wf w -> w_scope w = None ->
+  violates t v = true -> exists e, write_ty m t v w = Err e.
+Proof. exact reject_nested. Qed.
+
+Theorem C06_reject_nested_in_scope : forall m t v w,
+  wf_ty t -> kinds_ok t -> wf_val t v -> wst_wf w -> violates t v = true ->
+  is_ok (write_ty m t v w) = false /\
+  (is_panic (write_bit_field_entry m w false true) = false -> exists e, write_ty m t v w = Err e).
+Proof. exact reject_nested_in_scope. Qed.
+
+(** never a wrong encoding *)
+Theorem C06_never_wrong_encoding : forall m t v w w',
+  wf_ty t -> wf_val t v -> ~ Known_C01 m t v -> wst_wf w -> w_scope w = None ->
+  write_ty m t v w = Ok w' ->
+  exists bs, w_bits w' = w_bits w ++ bs /\ w_scope w' = None /\ wst_wf w' /\
+    forall s tail, rsrc s bs tail ->
+      read_ty m t (r_of_src s) = Ok (v, r_of_src (src_adv s (bl bs) tail)).
+Proof. exact C01_roundtrip_thm. Qed.
+
+Theorem C06_no_other_value : forall m t v w w',
+  wf_ty t -> wf_val t v -> ~ Known_C01 m t v -> wst_wf w -> w_scope w = None ->
+  write_ty m t v w = Ok w' ->
+  exists bs, w_bits w' = w_bits w ++ bs /\
+    forall s tail v' r', rsrc s bs tail -> read_ty m t (r_of_src s) = Ok (v', r') -> v' = v.
+Proof. exact no_other_value. Qed.
+
+(** extensible constraints: out of the root = extension form, and it round-trips *)
+Theorem C06_extensible_int_out_of_root_roundtrips : forall m k lo hi z w,
+  wf_ty (TInt k lo hi true) -> ik_fitsb k z = true -> is_i64 z ->
+  (z < opt_or lo 0 \/ opt_or hi I64_MAXz < z)%Z -> wst_wf w -> w_scope w = None ->
+  exists bs, write_ty m (TInt k lo hi true) (VInt z) w = Ok (w_append w (true :: bs)) /\
+    forall s tail, rsrc s (true :: bs) tail ->
+      read_ty m (TInt k lo hi true) (r_of_src s)
+      = Ok (VInt z, r_of_src (src_adv s (bl (true :: bs)) tail)).
+Proof. exact ext_int_out_of_root. Qed.
+
+Theorem C06_extensible_octets_out_of_root_roundtrips : forall m lo hi bytes w,
+  wf_ty (TOctets lo hi true) -> wf_val (TOctets lo hi true) (VOctets bytes) ->
+  blen bytes < opt_or lo 0 \/ opt_or hi I64_MAX < blen bytes -> wst_wf w -> w_scope w = None ->
+  exists bs, write_ty m (TOctets lo hi true) (VOctets bytes) w = Ok (w_append w (true :: bs)) /\
+    forall s tail, rsrc s (true :: bs) tail ->
+      read_ty m (TOctets lo hi true) (r_of_src s)
+      = Ok (VOctets bytes, r_of_src (src_adv s (bl (true :: bs)) tail)).
+Proof. exact ext_octets_out_of_root. Qed.
+
 Example C06_nonvacuous :
   write_ty dev_mode (TInt U8 (Some 5%Z) (Some 5%Z) false) (VInt 6) w_empty = Err E_VALUE_RANGE /\
   write_ty release_mode (TStr Numeric (Some 1) (Some 3) false) (VStr [49; 65]) w_empty = Err E_INVALID_STRING /\
   write_ty dev_mode (TOctets (Some 2) (Some 2) false) (VOctets [1; 2; 3]) w_empty = Err E_SIZE_RANGE.
 Proof. vm_compute. repeat split. Qed.
+
+(* SEQUENCE { a INTEGER(0..7), b SEQUENCE OF SEQUENCE { c IA5String(SIZE(1..3)) OPTIONAL } }: the
+   third list element carries a 4-character string (sequence -> list -> sequence -> string) *)
+Example C06_nested_nonvacuous :
+  wf_ty ex6_ty /\ kinds_ok ex6_ty /\ wf_val ex6_ty ex6_bad /\ wf_val ex6_ty ex6_good /\
+  violates ex6_ty ex6_bad = true /\ violates ex6_ty ex6_good = false /\
+  write_ty dev_mode ex6_ty ex6_bad w_empty = Err E_SIZE_RANGE /\
+  write_ty release_mode ex6_ty ex6_bad w_empty = Err E_SIZE_RANGE /\
+  is_ok (write_ty dev_mode ex6_ty ex6_good w_empty) = true.
+Proof. exact nonvacuous_nested. Qed.
+
+(* [violates] is tight: SEQUENCE { x INTEGER(0..7) DEFAULT 9 } with x = 9 (equal to the default: not
+   encoded, the write succeeds with the single presence bit 0) and x = 8 (encoded: refused) *)
+Example C06_violates_tight :
+  wf_ty ex6d_ty /\ kinds_ok ex6d_ty /\
+  wf_val ex6d_ty (VSeq [Some (VInt 9)]) /\ violates ex6d_ty (VSeq [Some (VInt 9)]) = false /\
+  write_ty dev_mode ex6d_ty (VSeq [Some (VInt 9)]) w_empty = Ok (w_append w_empty [false]) /\
+  wf_val ex6d_ty (VSeq [Some (VInt 8)]) /\ violates ex6d_ty (VSeq [Some (VInt 8)]) = true /\
+  write_ty dev_mode ex6d_ty (VSeq [Some (VInt 8)]) w_empty = Err E_VALUE_RANGE.
+Proof. exact violates_tight. Qed.
+
+(* the hypothesis [kinds_ok] cannot be dropped (descriptor never produced by the compiler) *)
+Example C06_kinds_ok_needed :
+  let t := TInt U64 (Some (-5)%Z) (Some 10%Z) false in
+  let v := VInt 18446744073709551615 in
+  wf_ty t /\ wf_val t v /\ ~ kinds_ok t /\ violates t v = true /\
+  is_ok (write_ty dev_mode t v w_empty) = true.
+Proof. exact kinds_ok_needed. Qed.
+
+(* an out-of-root value of an extensible INTEGER(0..7, ...) *)
+Example C06_extensible_nonvacuous :
+  exists w', write_ty dev_mode (TInt U8 (Some 0%Z) (Some 7%Z) true) (VInt 200) w_empty = Ok w' /\
+    hd false (w_bits w') = true /\
+    read_ty dev_mode (TInt U8 (Some 0%Z) (Some 7%Z) true) (r_of_src (src_of_bits (w_bits w') (bl (w_bits w'))))
+    = Ok (VInt 200, r_of_src (src_adv (src_of_bits (w_bits w') (bl (w_bits w'))) (bl (w_bits w')) [])).
+Proof. eexists. split; [vm_compute; reflexivity|]. split; vm_compute; reflexivity. Qed.
 
 Print Assumptions C06_constrained_reject.
 Print Assumptions C06_nnbi_reject.
@@ -93,3 +227,16 @@ Print Assumptions C06_choice_reject.
 Print Assumptions C06_alphabet_reject.
 Print Assumptions C06_string_size_reject.
 Print Assumptions C06_list_size_reject.
+
+Print Assumptions C06_writer_never_panics.
+Print Assumptions C06_violating_value_has_no_encoding.
+Print Assumptions C06_reject_nested.
+Print Assumptions C06_reject_nested_in_scope.
+Print Assumptions C06_never_wrong_encoding.
+Print Assumptions C06_no_other_value.
+Print Assumptions C06_extensible_int_out_of_root_roundtrips.
+Print Assumptions C06_extensible_octets_out_of_root_roundtrips.
+Print Assumptions C06_nested_nonvacuous.
+Print Assumptions C06_violates_tight.
+Print Assumptions C06_extensible_nonvacuous.
+Print Assumptions C06_kinds_ok_needed.
